@@ -11,6 +11,17 @@
 //!   proto files                   -> ok <path>,<path>,…                  (generated .proto files)
 //!   proto sets                    -> ok <module>::<Type>,…               (generated types carrying `#[asn(set…)]`)
 //!   proto peq x <Ty> <Val> <Val>  -> ok <0|1> | err unsupported          (the crate's `ProtobufEq` impls)
+//!   proto package <hex raw module name> <oid|->
+//!                                 -> ok <hex package> <hex file name>    (the pipeline of `Converter::to_protobuf`:
+//!                                    `make_names_nice`, `to_rust()`, `to_protobuf()`, `generate_file`; the package is
+//!                                    `model_to_package(&model.name, model.oid.as_ref())` and must be the one of the
+//!                                    header line of the generated file)
+//!   proto package-fn <hex path> <oid|->
+//!                                 -> ok <hex package> <hex file name>    (`model_to_package(path, oid)` and
+//!                                    `model_file_name(path)` on the argument as it is)
+//!   proto istoken <hex text>      -> ok <0|1>      (does `Tokenizer::parse` deliver exactly one `Token::Text` with this text?)
+//!                                    oid: `empty` | components joined by `,`: `n:<hex name>` NameForm,
+//!                                    `nn:<hex name>:<u64>` NameAndNumberForm, `u:<u64>` NumberForm
 //!
 //! A reader that never returns (SEQUENCE OF directly inside SEQUENCE OF, see the findings) is cut
 //! off by an address-space limit set on the first `proto` request: the process dies with an
@@ -457,9 +468,81 @@ fn gen_files(texts: &str) -> Option<String> {
     Some(out)
 }
 
+/// `-` = no object identifier, `empty` = `{ }`, else `n:<hex>` / `nn:<hex>:<u64>` / `u:<u64>` joined by `,`
+fn oid_of_token(token: &str) -> Option<Option<asn1rs_model::asn::ObjectIdentifier>> {
+    use asn1rs_model::asn::{ObjectIdentifier, ObjectIdentifierComponent as C};
+    if token == "-" {
+        return Some(None);
+    }
+    if token == "empty" {
+        return Some(Some(ObjectIdentifier(Vec::new())));
+    }
+    let mut v = Vec::new();
+    for part in token.split(',') {
+        let f = part.split(':').collect::<Vec<_>>();
+        v.push(match f[..] {
+            ["n", h] => C::NameForm(String::from_utf8(unhex(h)?).ok()?),
+            ["nn", h, k] => C::NameAndNumberForm(String::from_utf8(unhex(h)?).ok()?, k.parse().ok()?),
+            ["u", k] => C::NumberForm(k.parse().ok()?),
+            _ => return None,
+        });
+    }
+    Some(Some(ObjectIdentifier(v)))
+}
+
+fn package_answer(package: &str, file: &str) -> String {
+    format!("ok {} {}", hex(package.as_bytes()), hex(file.as_bytes()))
+}
+
+/// the functions themselves
+fn package_fn(path: &str, oid: &str) -> Option<String> {
+    use asn1rs_model::generate::protobuf::ProtobufDefGenerator as G;
+    let path = String::from_utf8(unhex(path)?).ok()?;
+    let oid = oid_of_token(oid)?;
+    Some(package_answer(&G::model_to_package(&path, oid.as_ref()), &G::model_file_name(&path)))
+}
+
+/// what `Converter::to_protobuf` does with a module of that name (no definitions)
+fn package_pipeline(raw: &str, oid: &str) -> Option<String> {
+    use asn1rs_model::asn::Asn;
+    use asn1rs_model::generate::protobuf::ProtobufDefGenerator as G;
+    use asn1rs_model::protobuf::ToProtobufModel;
+    use asn1rs_model::resolve::Resolved;
+    use asn1rs_model::Model;
+    let mut model = Model::<Asn<Resolved>>::default();
+    model.name = String::from_utf8(unhex(raw)?).ok()?;
+    model.oid = oid_of_token(oid)?;
+    model.make_names_nice();
+    let pm = model.to_rust().to_protobuf();
+    let package = G::model_to_package(&pm.name, pm.oid.as_ref());
+    let (file, content) = match G::generate_file(&pm) {
+        Ok(fc) => fc,
+        Err(_) => return Some("err generate".to_string()),
+    };
+    if content.lines().nth(1) != Some(&format!("package {};", package)[..]) {
+        return Some("err header-mismatch".to_string());
+    }
+    Some(package_answer(&package, &file))
+}
+
+/// is the text one `Token::Text` for the real tokenizer?  (an unclosed `/*` makes it panic: not a token)
+fn is_token(text: &str) -> Option<String> {
+    use asn1rs_model::parse::{Token, Tokenizer};
+    let text = String::from_utf8(unhex(text)?).ok()?;
+    let tokens = match catch_unwind(AssertUnwindSafe(|| Tokenizer::default().parse(&text))) {
+        Ok(t) => t,
+        Err(_) => return Some("ok 0".to_string()),
+    };
+    let one = matches!(&tokens[..], [Token::Text(_, t)] if *t == text);
+    Some(format!("ok {}", if one { 1 } else { 0 }))
+}
+
 pub fn handle(args: &[&str]) -> Option<String> {
     limit_memory();
     match args {
+        ["istoken", text] => is_token(text),
+        ["package", raw, oid] => package_pipeline(raw, oid),
+        ["package-fn", path, oid] => package_fn(path, oid),
         ["sets"] => Some(format!("ok {}", set_types().join(","))),
         ["peq", _, rest @ ..] => {
             let sx = parse_sx_all(&rest.join(" "))?;
